@@ -126,7 +126,7 @@ Proof.
     + apply stuckb_sound. exact H1.
 Qed.
 
-Theorem progress_refuted :
+Theorem cross_band_wait_can_block :
   exists p capB s, 1 <= capB /\ preachable p capB s /\ ~ pdone p s /\
                    ~ can_move lstate want cont (length p) (caps capB) s.
 Proof.
